@@ -333,3 +333,12 @@ func (c *Curve) ExplicitParams() *Node {
 		Int64(c.H),
 	)
 }
+
+// ParseECDSASigDER parses SEQUENCE { INTEGER r, INTEGER s }.
+func ParseECDSASigDER(b []byte) (r, s *big.Int, ok bool) {
+	n, err := ParseTree(b)
+	if err != nil || n == nil || n.Tag != 0x30 || len(n.Kids) != 2 || n.Kids[0].Tag != 0x02 || n.Kids[1].Tag != 0x02 {
+		return nil, nil, false
+	}
+	return new(big.Int).SetBytes(n.Kids[0].Prim), new(big.Int).SetBytes(n.Kids[1].Prim), true
+}
